@@ -505,5 +505,12 @@ def dao_fresh(prog: Program) -> RuleResult:
     return r
 
 
+def _opt_truth(prog):
+    # the conversion states are passed down optionally; `state or State()` must only ever replace None
+    from .opttruth import opt_truth
+
+    return opt_truth(prog, ["dao.FromDAOState", "dao.ToDAOState"], 3)
+
+
 def run(prog: Program, tier: str) -> List[RuleResult]:
-    return [idkey(prog), dao_order(prog), dao_direction(prog), dao_collect(prog), dao_window(prog), dao_value_truth(prog), dao_fresh(prog)]
+    return [idkey(prog), dao_order(prog), dao_direction(prog), dao_collect(prog), dao_window(prog), dao_value_truth(prog), dao_fresh(prog), _opt_truth(prog)]
